@@ -135,7 +135,9 @@ func hdrOld(s, e int64) stReq { return stReq{Q: "hdrold", K: "msg", S: s, E: e} 
 // between requests that are served
 func fixedStore(seed uint64) []netCase {
 	mk := func(name string, st ...stReq) netCase { return netCase{Net: "store", Name: name, Seed: seed, St: st} }
-	shard := func(count int32, key bool) stReq { return stReq{Q: "shard", K: "msg", Mem: "peers", Count: count, Key: key} }
+	shard := func(count int32, key bool) stReq {
+		return stReq{Q: "shard", K: "msg", Mem: "peers", Count: count, Key: key}
+	}
 	return []netCase{
 		mk("header-range-wraps",
 			hdrOld(0, 0),
@@ -211,7 +213,7 @@ func genStReq(r *hlib.Rng) stReq {
 	switch q.Q {
 	case "dirseq":
 		// a start far below zero is served entry by entry (repaired: rejected); keep it payable either way
-		if q.S < -(1 << 18) && q.E-q.S < 0 {
+		if q.S < -(1<<18) && q.E-q.S < 0 {
 			q.S = -int64(r.Range(1, 1<<16))
 		}
 		return q
